@@ -498,9 +498,9 @@ pub fn run(args: &Args) {
     let tier = args.tier;
     // ---- build the corpus
     let programs = c22::corpus(Tier::Quick);
-    let typed_stride = tier.pick(6, 1);
+    let typed_stride = tier.pick(8, 1);
     let policies = c30::corpus(Tier::Quick);
-    let cmd_stride = tier.pick(16, 1);
+    let cmd_stride = tier.pick(24, 1);
     let mut jobs: Vec<Job<'_>> = Vec::new();
     let refs: Vec<&Program> = programs.iter().collect();
     for (i, chunk) in refs.chunks(c22::BATCH).enumerate() {
@@ -524,7 +524,7 @@ pub fn run(args: &Args) {
             payload: Payload::Commands(chunk.to_vec(), base),
         });
     }
-    for (i, text) in crate::c23::corpus_docs(tier.pick(12, 1)).into_iter().enumerate() {
+    for (i, text) in crate::c23::corpus_docs(tier.pick(40, 1)).into_iter().enumerate() {
         jobs.push(Job { doc: Doc { id: format!("probe-batch-{i}"), text, markdown: false, ffi: Ffi::Probe }, payload: Payload::Generic });
     }
     let fact_docs: Vec<String> = crate::c24::fact_docs()
@@ -532,7 +532,7 @@ pub fn run(args: &Args) {
         .filter(|t| vmrun::compile_text_quiet(t, Ffi::None).is_ok())
         .collect::<Vec<_>>()
         .into_iter()
-        .step_by(tier.pick(3, 1))
+        .step_by(tier.pick(6, 1))
         .collect();
     for (i, text) in fact_docs.into_iter().enumerate() {
         jobs.push(Job { doc: Doc { id: format!("fact-doc-{i}"), text, markdown: false, ffi: Ffi::None }, payload: Payload::Generic });
